@@ -501,6 +501,18 @@ class _Spelling(ast.NodeTransformer):
     n.iter = self._unreversed(n.iter)
     return self.generic_visit(n)
 
+  def visit_Subscript(self, n):
+    # x[0:k] is x[:k]
+    self.generic_visit(n)
+    sl = n.slice
+    parts = sl.elts if isinstance(sl, ast.Tuple) else [sl]
+    for p_ in parts:
+      if isinstance(p_, ast.Slice) and isinstance(
+          p_.lower, ast.Constant) and p_.lower.value == 0 and type(
+              p_.lower.value) is int:
+        p_.lower = None
+    return n
+
   def visit_Call(self, n):
     self.generic_visit(n)
     # (A if c else B)(args) -> A(args) if c else B(args)
